@@ -568,6 +568,22 @@ def _numericish(t):
     return t[0] not in ('tuple', 'list', 'dict', 'table', 'and', 'or', 'not', 'cmp', 'cmp0', 'keys', 'opaque', 'missing')
 
 
+def _surely_different(a, b):
+    """two container displays that cannot compare equal: different lengths / key sets, or some position holding two different constants"""
+    if a[0] != b[0] or a[0] not in ('dict', 'list', 'tuple'):
+        return isconst(a) and isconst(b) and constval(a) is not _NOVAL and constval(b) is not _NOVAL and constval(a) != constval(b)
+    if a[0] == 'dict':
+        da, db = dict(a[1]), dict(b[1])
+        if len(da) != len(a[1]) or len(db) != len(b[1]):
+            return False
+        if set(da) != set(db):
+            return all(isinstance(k, str) for k in list(da) + list(db))
+        return any(_surely_different(da[k], db[k]) for k in da)
+    if len(a[1]) != len(b[1]):
+        return True
+    return any(_surely_different(x, y) for x, y in zip(a[1], b[1]))
+
+
 def cmp_(op, a, b):
     if op in FLIP:
         op, a, b = FLIP[op], b, a
@@ -587,6 +603,8 @@ def cmp_(op, a, b):
         # element-wise on boolean arrays:  (~x == y)  is  (x != y)
         x, y = (a[1], b) if a[0] == 'binv' else (a, b[1])
         return cmp_('NotEq' if op == 'Eq' else 'Eq', x, y)
+    if op in ('Eq', 'NotEq') and a[0] == b[0] and a[0] in ('dict', 'list', 'tuple') and _surely_different(a, b):
+        return ('const', op == 'NotEq')
     if op in ('Eq', 'NotEq', 'Is', 'IsNot') and key(a) > key(b):
         a, b = b, a
     if op in ('NotEq', 'IsNot', 'NotIn'):
